@@ -424,6 +424,9 @@ func c14Run(x *core.Ctx) {
 				if !supplied && (i/5)%6 == 1 && strings.Contains(ts, "[") {
 					c.Set("default", "single") // a single value written where a list is declared
 				}
+				if b := strings.Trim(ts, "[]!"); !supplied && (i/5)%6 == 4 && (b == "ID" || b == "Float") {
+					c.Set("default", "huge") // an integer literal beyond 64 bits: judged only if validation accepts the operation
+				}
 			}
 			if supplied {
 				v := g.value(t, 2)
@@ -577,13 +580,19 @@ func c14Check(x *core.Ctx, c *core.Case) {
 		if c.Get("default") == "single" {
 			decl = "$v: " + ts + " = " + d
 		}
+		if c.Get("default") == "huge" {
+			decl = "$v: " + ts + " = " + strings.Repeat("[", depth) + "99999999999999999999" + strings.Repeat("]", depth)
+		}
 	}
 	doc, perr := parser.ParseQuery(&ast.Source{Name: "op.graphql", Input: "query Q(" + decl + ") { f(any: {k: $v}) }"})
 	if perr != nil {
 		x.HarnessBug("operation does not parse: " + perr.Error())
 		return
 	}
-	if errs := validator.Validate(schema, doc); len(errs) > 0 {
+	if errs := validator.Validate(schema, doc); len(errs) > 0 && c.Get("default") == "huge" {
+		x.Count("skipped:huge-default-rejected-by-validation")
+		return
+	} else if len(errs) > 0 {
 		x.HarnessBug("operation does not validate: " + errs[0].Message + " for " + decl)
 		return
 	}
@@ -619,6 +628,11 @@ func c14Check(x *core.Ctx, c *core.Case) {
 		x.Distinct("class", class+"/error")
 		if out != nil {
 			x.Violate("result-shape", "both values and an error", "values or an error")
+		}
+		if !isSupplied && hasDefault {
+			// the operation passed validation, so its default is a value of the declared type: nothing was supplied that could be wrong
+			x.Violate("default-rejected("+firstWords(templateOf(cerr.Error()), 5)+")", cerr.Error(), "the default value of "+decl)
+			return
 		}
 		if defect != "" {
 			x.Count("defect_rejected")
